@@ -156,13 +156,13 @@ func bytesCodec(c *Case) map[string]any {
 		case "md5":
 			s := md5.Sum(b)
 			d = s[:]
-		case "sha1":
+		case "sha1", "sha-1":
 			s := sha1.Sum(b)
 			d = s[:]
-		case "sha256":
+		case "sha256", "sha-256", "sha2_256":
 			s := sha256.Sum256(b)
 			d = s[:]
-		case "sha512":
+		case "sha512", "sha-512", "sha2_512":
 			s := sha512.Sum512(b)
 			d = s[:]
 		case "sha3-256":
